@@ -25,7 +25,12 @@ def run_kv(ctx, procs, cases_per_proc, extra=None):
         d = os.path.join(ctx.scratch, "kv%d" % i)
         os.makedirs(d, exist_ok=True)
         cmd = [harness_bin("kv"), "--seed", str(ctx.seed * 1000 + i), "--tier", ctx.tier, "--out", d, "cases=%d" % cases_per_proc] + (extra or [])
-        r = subprocess.run(cmd, stdout=subprocess.PIPE, stderr=subprocess.PIPE, timeout=3000)
+        try:
+            r = subprocess.run(cmd, stdout=subprocess.PIPE, stderr=subprocess.PIPE, timeout=300 if ctx.tier == "quick" else 3000)
+        except subprocess.TimeoutExpired:
+            # a sequential call that never returns (the harness normally needs seconds): said with the calls issued so far
+            tail = read_lines(os.path.join(d, "kv.ops"))[-12:] if os.path.exists(os.path.join(d, "kv.ops")) else []
+            return {"dir": d, "crash": "TIMEOUT: a call of the store did not return (single-threaded harness, no other caller); last calls written: " + " ; ".join(x[:80] for x in tail)}
         if r.returncode != 0:
             return {"dir": d, "crash": "exit %d: %s" % (r.returncode, r.stderr.decode(errors="replace")[-800:])}
         rc, err = run_driver(os.path.join(d, "kv.ops"), os.path.join(d, "kv.model"))
